@@ -193,7 +193,7 @@ def run(rep, tier, seed):
     rep.encoded("src/basilisp/lang/queue.py", ["PersistentQueue.__eq__", "PersistentQueue.__hash__"], "executed on proxies")
     rep.encoded("src/basilisp/lang/map.py", ["PersistentMap.__eq__", "PersistentMap.__hash__"], "executed on proxies")
     rep.encoded("src/basilisp/lang/runtime.py", ["equals"], "executed on proxies")
-    ss = specs(2 if quick else 3, 60 if quick else 400)
+    ss = specs(2 if quick else 3, 60 if quick else 240)
     rep.bounds = {"sequence length": "<= 2 (quick) / 3 (thorough)", "elements": "nil | true | false | 0 | 1 | 2 (hashing realises integers, so the universe is kept finite)", "representations": "vector, list, cons seq, lazy seq, queue"}
     rep.outside = ["floats/ratios/decimals/records (C-level hashing realises them)", "nesting deeper than 2"]
     rep.assumptions += ["hash functions of pyrsistent / immutables / tuple run concretely (C)"]
